@@ -239,7 +239,7 @@ Proof.
     eapply IR1_frame; [eassumption|apply msame_refl|apply obs_step_osame; reflexivity].
   - (* reg *) destruct (mexc e) eqn:Hex.
     + destruct (reg_mexc _ _ _ _ Hk Hex) as (i & n & ->).
-      destruct (newinst_effect _ _ _ _ _ Hk) as (c & Hc & Hi & ->).
+      destruct (newinst_effect _ _ _ _ _ Hk) as (c & Hc & Hi & _ & ->).
       intros j x' xo' Hx Hxo. apply obs_newinst_get in Hxo. cbn in Hx. rewrite get_set in Hx.
       destruct (N.eqb i j).
       * injection Hx as <-. apply I1_newinst. tauto.
@@ -248,16 +248,16 @@ Proof.
   - (* api *) eapply IR1_frame; [eassumption|eapply step_api_msame; eauto|apply obs_step_osame; eapply api_oexc; eauto].
   - (* stop *) eapply IR1_frame; [eassumption|eapply step_stop_msame; eauto|apply obs_step_osame; eapply stop_oexc; eauto].
   - (* state *)
-    destruct (state_effect _ _ _ _ _ Hk) as (x & x' & Hx & Hx' & Hfr & _ & _ & _ & _ & Ha & He & _ & _ & Htr).
+    destruct (state_effect _ _ _ _ _ Hk) as (x & x' & Hx & Hx' & Hfr & _ & _ & _ & _ & Ha & He & _ & _ & Htr & _).
     intros j y yo' Hy Hyo. apply obs_state_get in Hyo. destruct Hyo as (yo & Hyo & _ & _ & Hoa & Hoc & _).
     destruct (N.eqb_spec j i) as [->|Hne].
     + assert (y = x') by congruence. subst y.
       eapply (I1_pc x x' yo yo'); eauto.
-      destruct Htr as [c E1 E2 E3|E1 E2 E3|todo E1 E2 E3 E4|E1 E2 E3 E4|c E1 E2 E3 E4|c E1 E2 E3]; auto;
+      destruct Htr as [c E1 E2 E3|E1 E2 E3|todo E1 E2 E3 E4 E5|E1 E2 E3 E4|c E1 E2 E3 E4|c E1 E2 E3]; auto;
         right; rewrite ?E2, ?E3, ?E4; repeat split; congruence.
     + rewrite (Hfr j Hne) in Hy. eapply (I1_pc y y yo yo'); eauto.
   - (* procend *)
-    destruct (procend_effect _ _ _ _ _ _ Hk) as (x & x' & Hx & Hx' & Hfr & _ & _ & _ & _ & Ha & He & _ & _ & Htr).
+    destruct (procend_effect _ _ _ _ _ _ Hk) as (x & x' & Hx & Hx' & Hfr & _ & _ & _ & _ & Ha & He & _ & _ & Htr & _).
     assert (Hgoal : forall j y yo yo', get j (insts s') = Some y -> get j (oi o) = Some yo ->
                     o_alive yo' = o_alive yo -> o_code yo' = o_code yo -> I1 y yo').
     { intros j y yo yo' Hy Hyo Hoa Hoc. destruct (N.eqb_spec j i) as [->|Hne].
@@ -286,7 +286,7 @@ Proof.
       * eapply (I1_pc y y yo yo'); eauto.
     + eapply IR1_frame; [eassumption|eapply step_env_msame; eauto|apply obs_step_osame; eapply env_oexc; eauto].
   - (* own *)
-    destruct (own_effect _ _ _ _ Hk) as (i & x & x' & Hth & Hx & Hx' & Hfr & _ & _ & _ & _ & Htr & Ha & He & _ & _ & Hg).
+    destruct (own_effect _ _ _ _ Hk) as (i & x & x' & Hth & Hx & Hx' & Hfr & _ & _ & _ & _ & Htr & Ha & He & _ & _ & Hg & _).
     assert (Hobs : forall j yo', get j (oi (obs_step cs o (th, e))) = Some yo' ->
               exists yo, get j (oi o) = Some yo /\ o_code yo' = o_code yo /\
                 o_alive yo' = if N.eqb i j then (match e with ELaunch true => true | _ => o_alive yo end) else o_alive yo).
@@ -339,10 +339,10 @@ Proof.
   intros HR H. destruct e; try reflexivity.
   apply (R1_flush _ _ th) in HR. unfold step in H. cbn [fst snd] in H.
   change (step_state (flush th s) th i s0 = Some s') in H.
-  destruct (state_effect _ _ _ _ _ H) as (x & x' & Hx & _ & _ & _ & _ & _ & _ & _ & _ & _ & _ & Htr).
+  destruct (state_effect _ _ _ _ _ H) as (x & x' & Hx & _ & _ & _ & _ & _ & _ & _ & _ & _ & _ & Htr & _).
   destruct (R1_oi _ _ _ _ HR Hx) as (xo & Hxo & Hget & [A B C D] & _).
   unfold mon_term. cbn [fst snd]. rewrite Hget, A.
-  destruct Htr as [c E1 E2 E3|E1 E2 E3|todo E1 E2 E3 E4|E1 E2 E3 E4|c E1 E2 E3 E4|c E1 E2 E3]; subst; try reflexivity.
+  destruct Htr as [c E1 E2 E3|E1 E2 E3|todo E1 E2 E3 E4 E5|E1 E2 E3 E4|c E1 E2 E3 E4|c E1 E2 E3]; subst; try reflexivity.
   destruct (alive x); [specialize (B eq_refl); congruence|]. apply orb_true_r.
 Qed.
 
